@@ -285,6 +285,34 @@ def r11_3(ctx):
                     from .c08 import _in_try_catching
                     if not _in_try_catching(c, fi, {"OperationalError"}):
                         non_idem.append((nm, sql[:50]))
+    # the explicit transaction only holds if no migration ends it from the inside: executescript() issues a COMMIT before
+    # it runs its statements (sqlite3 / aiosqlite), and so do commit() and a literal COMMIT / END / BEGIN
+    def _ends_txn(c):
+        nm = call_name(c)
+        if nm in ("executescript", "commit"):
+            return nm + "()"
+        if nm == "execute" and c.args and isinstance(c.args[0], ast.Constant) and str(c.args[0].value).strip().lower().split(" ")[0].rstrip(";") in ("commit", "end", "begin"):
+            return f"execute({str(c.args[0].value).strip()[:20]!r})"
+        if nm == "execute" and any(k.arg == "commit" and isinstance(k.value, ast.Constant) and k.value.value is True for k in c.keywords):
+            return "execute(..., commit=True)"
+        return None
+
+    probe = ast.parse("async def f(c):\n    await c.executescript('create table t (x)')").body[0]
+    ctx.require(any(_ends_txn(c) for c in calls_in(probe)), "R11.3 self-test: the executescript matcher does not fire on its positive example", anchor=True)
+    breakers = []
+    for nm in sorted(set(names)):
+        fi = p.func(f"db.{nm}")
+        for c in calls_in(fi.node):
+            why = _ends_txn(c)
+            if why:
+                breakers.append((fi, c, why))
+    if atomic and breakers:
+        fi, c, why = breakers[0]
+        ctx.bad("R11.3", fi.module, fi.qual, why, f"migration `{fi.name}` ends the transaction apply_migrations opened for it ({why} commits what is pending and runs the rest in autocommit): its DDL becomes durable before its version row, and a kill in between makes every later start re-run it and fail", c.lineno)
+        atomic = False
+        non_idem = non_idem or [(fi.name, why)]
+    elif atomic:
+        ctx.ok("R11.3", where(am), f"none of the {len(set(names))} migrations commits or runs a script inside the transaction opened for it")
     if atomic:
         ctx.ok("R11.3", where(am), "each migration runs inside an explicit transaction together with its version row: " + " -> ".join(seq))
         # the transaction is closed on both outcomes: COMMIT after the version row, ROLLBACK in a handler that re-raises
@@ -336,11 +364,38 @@ def r11_4(ctx):
         ctx.ok("R11.4", where(fi), "create arm ends in a commit")
 
 
+def r11_5(ctx):
+    """Moving a message between folders is add-then-remove: at every instant the message file exists in at least one of the two
+    folders, so a kill loses nothing (at worst it leaves a duplicate).  RENAME INBOX moves every message of the inbox this
+    way; inside one iteration of its loop the removal from the inbox comes only after the add to the new mailbox."""
+    p = ctx.p
+    fi = p.func("mbox._helper_rename_inbox")
+    g = ctx.cfg(fi)
+    loops = [l for l in body_walk(fi.node) if isinstance(l, (ast.For, ast.AsyncFor)) and any(call_name(c) == "remove" for c in calls_in(l))]
+    ctx.require(loops, "_helper_rename_inbox: the loop that removes the moved messages from the inbox not found")
+    lp = loops[0]
+    adds = {n.id for n in g.nodes if n.ast is not None and n.kind == "stmt" and any(call_name(c) == "add" and norm(call_recv(c)).endswith(".mailbox") and not norm(call_recv(c)).startswith("inbox") for c in calls_in(n.ast))}
+    rems = [n.id for n in g.nodes if n.ast is not None and n.kind == "stmt" and any(call_name(c) in ("remove", "aremove", "discard", "__delitem__") and norm(call_recv(c)) == "inbox.mailbox" for c in calls_in(n.ast))]
+    head = [n.id for n in g.nodes if n.kind == "iter" and n.ast is lp.iter]
+    ctx.require(adds and rems and head, "_helper_rename_inbox: add to the new mailbox / remove from the inbox / loop head not found")
+    bad = None
+    for r in rems:
+        w = flow.escapes_without(g, head[0], lambda n: n in adds, [r])
+        ctx.paths_explored += 1
+        if w is not None:
+            bad = (r, w)
+    if bad:
+        ctx.bad("R11.5", fi.module, fi.qual, "inbox.mailbox.remove(key) before new_mbox.mailbox.add(msg)", "RENAME INBOX can remove a message from the inbox before it has been added to the new mailbox: a kill in between leaves the (acknowledged) message in neither folder", g.nodes[bad[0]].line, flow.fmt_path(g, bad[1]) if isinstance(bad[1], list) else None)
+    else:
+        ctx.ok("R11.5", where(fi), "RENAME INBOX: each message is added to the new mailbox before it is removed from the inbox")
+
+
 def run(ctx):
     ctx.do(r11_1)
     ctx.do(r11_2)
     ctx.do(r11_3)
     ctx.do(r11_4)
+    ctx.do(r11_5)
     from . import c02
     ctx.do(c02.r2_1)
     ctx.do(c02.r2_4)
